@@ -55,6 +55,7 @@ void cv_on_throw(var obj) {
 }
 static void arbitrary_list(void) {
   l = (struct List*)header_init(&LO.h, List, AllocHeap);
+  { struct List any_state; *l = any_state; }      /* fields the invariant below does not pin down are arbitrary */
   l->type = ELEM; l->tsize = sizeof(struct Elem); l->nitems = N; l->head = NULL; l->tail = NULL;
   var prev = NULL;
   for (int i = 0; i < N; i++) {
